@@ -356,3 +356,67 @@ func r135(c *Ctx, r *R) {
 	}
 	r.Check(okRPC, "blockadder:rpc-errors-excluded", f.Pos(), "destinations that failed at the RPC level are dropped from the successful set", "destinations with RPC errors are kept as successful destinations")
 }
+
+func init() {
+	register(&Rule{ID: "R13.6", Props: []string{"C13"}, Floor: 5, Title: "every DAG node the importer creates, and every builder it configures, uses the requested CID builder (version/hash): siblings agree", Run: r136})
+}
+
+func r136(c *Ctx, r *R) {
+	sp := c.P.SSAPkg("adder/ipfsadd")
+	if sp == nil {
+		r.Und("pkg", token.NoPos, "adder/ipfsadd missing")
+		return
+	}
+	isBuilderField := func(v ssa.Value) bool {
+		fl, _ := fieldLoad(v)
+		return fl != nil && fl.Name() == "CidBuilder"
+	}
+	c.P.RepoFuncs(func(f *ssa.Function) {
+		root := f
+		for root.Parent() != nil {
+			root = root.Parent()
+		}
+		if root.Pkg != sp {
+			return
+		}
+		// (a) node constructors
+		for _, ci := range findCalls(f, false, "go-merkledag.NodeWithData", "go-unixfs.EmptyDirNode", "go-unixfs.EmptyFileNode") {
+			v, ok := ci.(ssa.Value)
+			if !ok {
+				continue
+			}
+			set := false
+			for _, sc := range findCalls(f, false, "go-merkledag.ProtoNode).SetCidBuilder") {
+				if strip(sc.Common().Args[0]) == v && isBuilderField(strip(sc.Common().Args[1])) {
+					set = true
+				}
+			}
+			r.Check(set, "node:"+f.Name()+":"+shortName(ci), ci.Pos(), "the new node gets the requested CID builder", f.Name()+" creates a DAG node ("+shortName(ci)+") without SetCidBuilder(adder.CidBuilder): with cid-version=1 or a non-default hash this node keeps CIDv0/sha2-256, so parents and the root differ from what the standard importer computes")
+		}
+		// (b) parameter structs with a CidBuilder field
+		instrs(f, func(i ssa.Instruction) {
+			al, ok := i.(*ssa.Alloc)
+			if !ok {
+				return
+			}
+			st := structOf(al.Type())
+			if st == nil || fieldByName(al.Type(), "CidBuilder") == nil || al.Referrers() == nil {
+				return
+			}
+			if strings.HasSuffix(al.Type().String(), "ipfsadd.Adder") {
+				return
+			}
+			set := false
+			for _, ref := range *al.Referrers() {
+				if fa, ok := ref.(*ssa.FieldAddr); ok && fieldOfAddr(fa).Name() == "CidBuilder" && fa.Referrers() != nil {
+					for _, r2 := range *fa.Referrers() {
+						if s, ok := r2.(*ssa.Store); ok && isBuilderField(strip(s.Val)) {
+							set = true
+						}
+					}
+				}
+			}
+			r.Check(set, "params:"+f.Name()+":"+al.Type().String(), al.Pos(), "the builder parameters carry the requested CID builder", f.Name()+" builds "+al.Type().String()+" without CidBuilder: adder.CidBuilder")
+		})
+	})
+}
